@@ -21,12 +21,10 @@ class SlidingWindowTracker(Tracker):
         Args:
             value_i (int or float): The numeric value to be added to the tracker.
         """
-        if self.window_k < self.k:
-            self.sliding_window[self.window_k] = value_i
-            self.window_k += 1
-        else:
+        if self.window_k >= self.k:
             self.window_k = 0
-            self.sliding_window[self.window_k] = value_i
+        self.sliding_window[self.window_k] = value_i
+        self.window_k += 1
         return self
 
     def __call__(self, *args, **kwargs):
